@@ -81,6 +81,8 @@ def recreate_branches(data, skip_keys=None):
         new_data = [recreate_branches(v, skip_keys) for v in data]
     elif type(data) is tuple:
         new_data = tuple(recreate_branches(v, skip_keys) for v in data)
+    elif isinstance(data, tuple) and hasattr(data, "_fields"):
+        new_data = type(data)(*(recreate_branches(v, skip_keys) for v in data))
     return new_data
 
 
